@@ -49,7 +49,8 @@ def decode(zs):
 
 def correspondence(tier, seed, n=None):
     recs = C.run_harness(["C13", tier, seed] + ([n] if n else []))
-    cases = [r for r in recs if "start" in r]
+    cases = [r for r in recs if "start" in r and "obs" in r]
+    e2e = [r for r in recs if r.get("what") == "e2e"]
     failures = [r for r in recs if r.get("direct") == "fail"]
     outs = C.coq_eval("c13", "From VF Require Import Exec.Rrt.", [expr(r) for r in cases], shard=12)
     dis, compared, undec, distinct = [], 0, 0, 0
@@ -57,6 +58,7 @@ def correspondence(tier, seed, n=None):
     for r, zs in zip(cases, outs):
         res, pts = decode(zs)
         dist[f"result:{r['result']}/cancel{r['cancel_mode']}"] += 1
+        dist["e2e_plan_rrt_cases"] = len(e2e)
         why = None
         if res == "fuel":
             why = "model out of fuel"
@@ -75,7 +77,7 @@ def correspondence(tier, seed, n=None):
             compared += 1
     samples = [{"case": r["case"], "step": C.f64(r["step"]), "max_try": r["max_try"], "n_obs": len(r["obs"]), "cancel_mode": r["cancel_mode"],
                 "result": r["result"], "path_len": len(r["path"]) if r["path"] else 0, "hops_max": r["hops_max"]} for r in cases[:4]]
-    return {"evaluations": len(cases), "compared": compared, "undecided": undec, "disagreements": dis, "failures": failures,
+    return {"evaluations": len(cases) + len(e2e), "compared": compared, "undecided": undec, "disagreements": dis, "failures": failures,
             "samples": samples, "distribution": dict(dist), "distinct_nontrivial": distinct}
 
 
